@@ -103,7 +103,14 @@ def gen_(rng, i, tier):
         if free and rng.random() < 0.7:
             c = G.coef(rng, ints=True)
             newvar = [C.enc(rng.choice(free)), [c.numerator, c.denominator]]
+    decoy = None
+    if kind and rng.random() < 0.2:
+        labs = sorted({x for k, _ in t for x in k}, key=C.enc)
+        extra = [l for l in (C.POOL if uni == 'pool' else range(8)) if l not in labs]
+        dl = (extra[:2] + labs[::-1]) if rng.random() < 0.7 else labs[::-1]
+        decoy = [((l,), F(1)) for l in dl]
     return {"fn": fn, "kind": kind, "form": form, "terms": G.jraw(t), "stale": [[C.enc(x) for x in k] for k in stale],
+            "decoy": None if decoy is None else G.jraw(decoy),
             "all": rng.random() < 0.5, "pred": pred if form != "method" else "all", "k": rng.randint(0, 3),
             "remap": remap, "newvar": newvar}
 
@@ -113,7 +120,14 @@ def build(case):
     d = {k: C.num(v) for k, v in t}
     if case["kind"] is None:
         return d
-    m = cls_of(case["kind"])(d)
+    if case.get("decoy"):
+        # the object had another life before: other labels in another order, then clear() -- nothing of it may survive
+        m = cls_of(case["kind"])({k: C.num(v) for k, v in G.unjraw(case["decoy"])})
+        m.clear()
+        for k, v in d.items():
+            m[k] += v           # as the constructor does
+    else:
+        m = cls_of(case["kind"])(d)
     for k in case["stale"]:
         m[tuple(C.dec(x) for x in k)] = 0       # the key goes, its cached variables stay
     if case.get("remap"):
@@ -258,4 +272,6 @@ def tags(case, out):
         t.append("ties:%d" % min(len(out["sols"]), 4))
     if case["stale"]:
         t.append("stale-variables")
+    if case.get("decoy"):
+        t.append("rebuilt-after-clear")
     return t
